@@ -1,13 +1,13 @@
 SPECIFICATION Spec
 CONSTANTS
   Chain = {0, 1, 2, 3, 4}
-  OursSets = {{2, 3, 4}, {0, 2, 3}}
+  OursSets = {{2, 3, 4}, {0, 2, 3}, {0, 1, 4}}
   Managers = {"wallet", "dirk"}
   VMDesigns = {"replace", "retain"}
   SPE = 32
-  Epochs = {2, 3}
+  Epochs = {2}
   StrictVM = TRUE
   AllOffers = TRUE
-  Lean = TRUE
+  Lean = FALSE
 INVARIANTS TypeOK SignedByAssignee OnlyOurs MapsInStep ViewSound
 CHECK_DEADLOCK FALSE
